@@ -720,6 +720,7 @@ func rcExec(sub string) func(st *State, line string) Result {
 			a = rcInts(f[1:])
 		}
 		before := w.proxy.mutations
+		dupFinal := false
 		out, panicked, msg := Catch(func() string {
 			switch f[0] {
 			case "tx":
@@ -759,6 +760,9 @@ func rcExec(sub string) func(st *State, line string) Result {
 				snap.References = head.References
 				for _, t := range a[6 : 6+k] {
 					snap.AddTransaction(w.txs[t].PayloadHash())
+					if _, fin, _ := w.badger.ReadTransaction(w.txs[t].PayloadHash()); fin != "" {
+						dupFinal = true // finalized before, by a snapshot of another chain
+					}
 				}
 				snap.Hash = snap.PayloadHash()
 				w.snaps[s], w.snapId[snap.Hash] = snap, s
@@ -800,6 +804,9 @@ func rcExec(sub string) func(st *State, line string) Result {
 		}
 		res.Out = out + " " + rcDigest(w.badger)
 		res.Nontrivial = out == "ok"
+		if f[0] == "snap" && out == "ok" && dupFinal {
+			res.Tags = append(res.Tags, "snap:duplicate-finalization")
+		}
 		if f[0] == "snap" && out == "ok" {
 			d := w.defs[w.txId[w.snaps[a[0]].Transactions[0]]]
 			if d != nil {
@@ -1012,6 +1019,69 @@ func (g *rcGen) ordinary(c int) {
 	g.pool = append(g.pool, fresh...)
 }
 
+// shared: ONE ordinary transaction finalized by snapshots of 2-3 different chains (legitimate:
+// the first finalization wins, finalizeTransaction leaves FINALIZATION untouched for the later
+// snapshots, the validator only logs "DUPLICATED FINALIZATION"), then a round transition on each
+// of those chains, so that every one of the snapshots falls below its head and into the window
+// of the startup validator.
+func (g *rcGen) shared() {
+	perm := []int{}
+	for c := 0; c < g.n; c++ {
+		perm = append(perm, c)
+	}
+	for i := len(perm) - 1; i > 0; i-- {
+		j := g.r.Intn(i + 1)
+		perm[i], perm[j] = perm[j], perm[i]
+	}
+	chains := perm[:g.r.Range(2, 3)]
+	g.maybeRound(chains[0])
+	t, outs := g.ordinaryTx()
+	g.op("lock %d", t)
+	g.op("wtx %d", t)
+	g.snap(chains[0], []int{t})
+	g.finalized = append(g.finalized, t)
+	for i := 0; i < outs; i++ {
+		g.pool = append(g.pool, [2]int{t, i})
+	}
+	for _, y := range chains[1:] {
+		g.maybeRound(y)
+		txs := []int{t}
+		if g.r.Chance(1, 3) { // the later snapshot also carries a transaction of its own
+			t2, outs2 := g.ordinaryTx()
+			g.op("lock %d", t2)
+			g.op("wtx %d", t2)
+			if g.r.Bool() {
+				txs = []int{t2, t}
+			} else {
+				txs = []int{t, t2}
+			}
+			g.finalized = append(g.finalized, t2)
+			for i := 0; i < outs2; i++ {
+				g.pool = append(g.pool, [2]int{t2, i})
+			}
+		}
+		g.snap(y, txs)
+		if g.r.Chance(1, 4) {
+			g.ordinary(perm[len(perm)-1])
+		}
+	}
+	for i := len(chains) - 1; i > 0; i-- {
+		j := g.r.Intn(i + 1)
+		chains[i], chains[j] = chains[j], chains[i]
+	}
+	for _, c := range chains {
+		if len(g.cur[c]) > 0 {
+			g.newRound(c)
+		}
+		if g.r.Chance(1, 4) { // and one round further
+			g.ordinary(c)
+			if len(g.cur[c]) > 0 {
+				g.newRound(c)
+			}
+		}
+	}
+}
+
 func (g *rcGen) consensus(a int) {
 	g.maybeRound(a)
 	var t int
@@ -1135,15 +1205,25 @@ func rcGenCase(r *Rand, i int, tier string) []string {
 	g := newRcGen(r, 7, num, den)
 	for k := 0; k < steps; k++ {
 		c := g.r.Intn(g.n)
-		if g.r.Chance(2, 5) {
+		switch {
+		case g.r.Chance(1, 6):
+			g.shared()
+		case g.r.Chance(2, 5):
 			g.consensus(c)
-		} else {
+		default:
 			g.ordinary(c)
 		}
 	}
 	g.lines = append(g.lines, "cut")
 	return g.lines
 }
+
+// a deposit finalized on chain 1 and again on chain 2 (FINALIZATION keeps naming the first
+// snapshot), chain 2 moves on to round 2: its round 1 is now inside the validator's window
+var rcSharedTx = []string{"reset", "genesis 7",
+	"tx 9 0 0 1 1 0", "lock 9", "wtx 9", "snap 9 1 1 1001000000 8 1 9", "cut",
+	"snap 10 2 1 1002000000 9 1 9", "cut", "round 2 2 1 10 3 0 1 4 1002000000", "cut",
+	"round 1 2 1 9 2 1 1 10 1001000000", "cut"}
 
 // the confirmed C21 witness: mint finalized on chain 1, a deposit finalized on chain 2, stop
 // before the marker write
@@ -1160,12 +1240,13 @@ var rcDuplicateConsensus = []string{"reset", "genesis 7",
 
 func init() {
 	rule := "random multi-chain workloads over a generated 7-node genesis in a real Badger directory: deposits, script " +
-		"spends, two-transaction and duplicate-inclusion snapshots, round transitions with external links, and " +
+		"spends, two-transaction snapshots, one ordinary transaction finalized by snapshots of 2-3 chains followed by a " +
+		"round transition on each of them, round transitions with external links, and " +
 		"consensus-class snapshots (mint, pledge, cancel, remove) interleaved with 0-2 foreign snapshots before the marker " +
 		"write; `cut` = real close/copy/reopen + kernel.SetupNode (every boundary in thorough, 1/4 sampled in quick); " +
 		"non-trivial = a storage call that committed, or a restart; distinct = distinct op line"
-	Register(&Subsystem{Name: "recovery", Rule: rule, Gen: rcGenCase, Exec: rcExec("recovery"), Corpus: [][]string{rcWitness, rcDuplicateConsensus}})
-	Register(&Subsystem{Name: "ledgercrash", Rule: rule, Gen: rcGenCase, Exec: rcExec("ledgercrash"), Corpus: [][]string{rcWitness, rcDuplicateConsensus}})
+	Register(&Subsystem{Name: "recovery", Rule: rule, Gen: rcGenCase, Exec: rcExec("recovery"), Corpus: [][]string{rcWitness, rcDuplicateConsensus, rcSharedTx}})
+	Register(&Subsystem{Name: "ledgercrash", Rule: rule, Gen: rcGenCase, Exec: rcExec("ledgercrash"), Corpus: [][]string{rcWitness, rcDuplicateConsensus, rcSharedTx}})
 }
 
 var _ = bytes.Equal
